@@ -691,14 +691,24 @@ def pending_rule(P, R):
     if len(need) < 19:
         R.anchor_missing(RULE, "only %d request members found (11 copier, delete_info, 7 mix maps expected)" % len(need))
         return
-    cfg = T.CFG(f)
-    dom = cfg.dominators()
     cleared = {}
-    for nd in cfg.nodes:
-        n = nd["n"]
-        if not T.is_node(n) or nd["id"] not in dom.get(cfg.exit, ()):
-            continue
+
+    def collect(fn, depth):
+        cfg = T.CFG(fn)
+        dom = cfg.dominators()
+        for nd in cfg.nodes:
+            n = nd["n"]
+            if not T.is_node(n) or nd["id"] not in dom.get(cfg.exit, ()):
+                continue
+            collect_node(n, depth)
+
+    def collect_node(n, depth):
         for c in T.calls(n):
+            q = T.callee_q(c) or ""
+            if depth < 2 and q.startswith("Phreeqc::") and T.callee_name(c) not in ("copier_clear",):
+                gs = P.fns_named(q)
+                if len(gs) == 1 and gs[0].get("body"):
+                    collect(gs[0], depth + 1)      # a helper that discards them on every path counts
             nm = T.callee_name(c)
             if nm == "copier_clear" and c[4]:
                 a = T.strip_casts(c[4][0])
@@ -708,6 +718,7 @@ def pending_rule(P, R):
                 o = T.strip_casts(T.call_obj(c))
                 if T.is_node(o) and o[0] == "Member":
                     cleared[o[2].split("::")[-1]] = c[1]
+    collect(f, 0)
     for m in need:
         if m in cleared:
             R.ok(RULE, m, "discarded at line %d on every path through read_input" % cleared[m])
